@@ -901,6 +901,9 @@ func (r *runner) finalize() {
 // position"): clear every fault, give each source a few more records, Start, let it flow, stop.
 func (r *runner) restartCheck() {
 	r.world.ClearFaults(2)
+	r.faultMu.Lock()
+	r.sc.Faults = nil // scripted store faults that have not fired belong to the history, not to the restart check
+	r.faultMu.Unlock()
 	r.log.Add("RestartCheck")
 	r.mu.Lock()
 	r.calls = nil
